@@ -1,10 +1,12 @@
 \* C20 trace validation: rounds of <= 3 racing initialisers and 3 observers with <= 3
-\* operations each, recorded from real threads on a fresh AmbientSlot per round.
+\* operations each, recorded from real threads on a fresh AmbientSlot per round and on the
+\* process-global shared and internal slots (one round per child process); initialisers use
+\* every public entry point of the round's kind of slot.
 SPECIFICATION TSpec
 CONSTANTS
     Inits = {1, 2, 3}
     Observers = {1, 2, 3}
-    InitKinds = {"try_init_slot", "init", "init_slot"}
+    InitKinds = {"try_init_slot", "init_slot", "slot_init", "try_init", "init", "try_init_internal", "init_internal", "internal_slot_init"}
     ObsOps = {"is_enabled", "emit", "span", "flush", "probe"}
     MaxObs = 3
     Design = "oncelock"
